@@ -298,6 +298,26 @@ func (v *verifyFuture) vote(leader bool) {
 	}
 }
 
+// dropPeer re-evaluates the request after a peer it was waiting for has been
+// removed from the cluster: the quorum that counts is now the one of the
+// configuration without that peer. If the votes collected so far reach it the
+// leader loop is notified, exactly as after a deciding vote.
+func (v *verifyFuture) dropPeer(quorumSize int) {
+	v.voteLock.Lock()
+	defer v.voteLock.Unlock()
+
+	// Guard against having notified already
+	if v.notifyCh == nil {
+		return
+	}
+
+	v.quorumSize = quorumSize
+	if v.votes >= v.quorumSize {
+		v.notifyCh <- v
+		v.notifyCh = nil
+	}
+}
+
 // appendFuture is used for waiting on a pipelined append
 // entries RPC.
 type appendFuture struct {
